@@ -248,6 +248,17 @@ func TestC13(t *testing.T) {
 			cl.label("refused-merge")
 			nontrivial = nontrivial || nonEmpty
 			unchanged("the refused MergeWith")
+			// the same two sketches as one stream: their encodings, each with its own mapping, one after the other. A
+			// decoder that is given no mapping adopts the first one and must refuse the second (in either order)
+			var b1, b2 []byte
+			u.s.Encode(&b1, false)
+			arg.Encode(&b2, false)
+			for _, stream := range [][]byte{append(append([]byte{}, b1...), b2...), append(append([]byte{}, b2...), b1...)} {
+				if _, err := decodeSketch(u.cfg, stream, false); err == nil {
+					t.Fatalf("C13 %s: a stream holding this sketch and one with mapping %s, decoded without a given mapping, was accepted", c, ospec)
+				}
+			}
+			cl.label("refused-decode-of-two-mappings")
 		case "reweight":
 			w := rapid.SampledFrom([]float64{0, math.Copysign(0, -1), -1, -0.5, -5e-324, math.Inf(-1), -1e300}).Draw(t, "w")
 			cl.logf("call Reweight(%v)", w)
